@@ -316,7 +316,9 @@ bool IncSolver::satisfy() {
     for(unsigned i=0;i<m;i++) {
         v=cs[i];
         if(v->active) activeConstraints=true;
-        if(v->slack() < ZERO_UPPERBOUND) {
+        // Active constraints are tight by construction; their recomputed
+        // slack can only differ from zero by rounding error.
+        if(!v->active && v->slack() < ZERO_UPPERBOUND) {
             ostringstream s;
             s<<"Unsatisfied constraint: "<<*v;
 #ifdef LIBVPSC_LOGGING
